@@ -92,6 +92,9 @@ class FFDirector(SectionLineParser):
         self.links = []
         self.modifications = []
         self.citations = set()
+        # Finished contexts are cleared by finalize_section; remember that one
+        # has been opened for has_context.
+        self._context_opened = False
         self.header_actions = {
             ('moleculetype', ): self._new_block,
             ('link', ): self._new_link,
@@ -166,12 +169,14 @@ class FFDirector(SectionLineParser):
             self.current_block.citations.update(self.citations)
             self.current_block.make_edges_from_interactions()
             self.force_field.blocks[self.current_block.name] = self.current_block
+            self.current_block = None
 
         if self.current_link is not None:
             # add FF wide citations
             self.current_link.citations.update(self.citations)
             self.current_link.make_edges_from_interactions()
             self.force_field.links.append(self.current_link)
+            self.current_link = None
 
         if self.current_modification is not None:
             # add FF wide citations
@@ -180,6 +185,7 @@ class FFDirector(SectionLineParser):
                              self.current_modification.name, self.force_field.name)
             self.current_modification.citations.update(self.citations)
             self.force_field.modifications[self.current_modification.name] = self.current_modification
+            self.current_modification = None
 
     def get_context(self, context_type=''):
         possible_contexts = {
@@ -193,16 +199,19 @@ class FFDirector(SectionLineParser):
     def has_context(self):
         open_contexts = [
             self.current_block, self.current_link, self.current_modification]
-        return open_contexts != ([None] * len(open_contexts))
+        return self._context_opened or open_contexts != ([None] * len(open_contexts))
 
     def _new_block(self):
         self.current_block = Block(force_field=self.force_field)
+        self._context_opened = True
 
     def _new_link(self):
         self.current_link = Link(force_field=self.force_field)
+        self._context_opened = True
 
     def _new_modification(self):
         self.current_modification = Modification(force_field=self.force_field)
+        self._context_opened = True
 
     @SectionLineParser.section_parser('variables')
     def _variables(self, line, lineno=0):
